@@ -4,7 +4,9 @@
 #  2. every patch in mutants/ and seeded/*/patch.diff -> the quick check of its property must report a violation
 # Never touches /repo: works on a scratch copy of /repo and /verif under /root/verif-scratch (removed at the end).
 # Writes selftest_results.txt.
-cd /verif
+# VERIF_SRC=<dir> runs the checks of a snapshot of /verif (e.g. `git archive HEAD`) instead of the working copy.
+SRC=${VERIF_SRC:-/verif}
+cd $SRC
 S=/root/verif-scratch
 out=/verif/selftest_results.txt; : > $out
 export CARGO_TARGET_DIR=$S/target
@@ -13,7 +15,7 @@ sync_scratch() {
   # cargo decides by mtime: a file that rsync puts back (old mtime) or tar extracts (commit time) would
   # look "not newer than the build" and a stale artifact would be reused: touch whatever changed
   rsync -ai --delete --exclude target --exclude .git /repo/ $S/repo/ | awk '/^>f/ {print $2}' | while read -r f; do touch "$S/repo/$f"; done
-  rsync -a --delete --exclude 'target*' --exclude .git --exclude replays --exclude evidence --exclude seeded --exclude selftest_results.txt /verif/ $S/verif/
+  rsync -a --delete --exclude 'target*' --exclude .git --exclude replays --exclude evidence --exclude seeded --exclude selftest_results.txt $SRC/ $S/verif/
   sed -i "s#\"/repo#\"$S/repo#g" $S/verif/harness/*/Cargo.toml
 }
 run_check() { # prop -> prints KILLED/survived + first oracle
@@ -21,7 +23,7 @@ run_check() { # prop -> prints KILLED/survived + first oracle
   local first; first=$(echo "$o" | grep -A1 '^VIOLATION ' | sed -n 2p | cut -c3-170)
   if [ $rc -eq 1 ]; then echo "KILLED :: $first"; elif [ $rc -eq 0 ]; then echo "survived"; else echo "BROKEN rc=$rc"; fi
 }
-echo "# sensitivity self-test, /repo at $(git -C /repo log --format=%h -1), /verif at $(git -C /verif log --format=%h -1)" | tee -a $out
+echo "# sensitivity self-test, /repo at $(git -C /repo log --format=%h -1), /verif at $(git -C /verif log --format=%h -1), VERIF_SEED=${VERIF_SEED:-1}" | tee -a $out
 echo "## trees just before each fix commit (defect present again)" | tee -a $out
 grep '^fixed:' known_findings.txt | while read -r _ prop commit rest; do
   p=${prop#property=}
@@ -33,12 +35,12 @@ echo "## mutants/" | tee -a $out
 for f in mutants/*.patch; do
   p=$(basename $f | cut -d- -f1)
   sync_scratch
-  if (cd $S/repo && patch -p1 -s --dry-run < /verif/$f >/dev/null 2>&1); then (cd $S/repo && patch -p1 -s < /verif/$f); echo "$(basename $f) ($p): $(run_check $p)" | tee -a $out; else echo "$(basename $f): does not apply to HEAD (its defect is covered by the pre-fix tree above)" | tee -a $out; fi
+  if (cd $S/repo && patch -p1 -s --dry-run < $SRC/$f >/dev/null 2>&1); then (cd $S/repo && patch -p1 -s < $SRC/$f); echo "$(basename $f) ($p): $(run_check $p)" | tee -a $out; else echo "$(basename $f): does not apply to HEAD (its defect is covered by the pre-fix tree above)" | tee -a $out; fi
 done
 echo "## seeded/" | tee -a $out
-for d in seeded/*/; do
+for d in seeded/C*-*/; do
   id=$(basename $d); p=${id%%-*}
   sync_scratch
-  if (cd $S/repo && patch -p1 -s --dry-run < /verif/$d/patch.diff >/dev/null 2>&1); then (cd $S/repo && patch -p1 -s < /verif/$d/patch.diff); echo "$id ($p): $(run_check $p)" | tee -a $out; else echo "$id: does not apply to HEAD" | tee -a $out; fi
+  if (cd $S/repo && patch -p1 -s --dry-run < $SRC/$d/patch.diff >/dev/null 2>&1); then (cd $S/repo && patch -p1 -s < $SRC/$d/patch.diff); echo "$id ($p): $(run_check $p)" | tee -a $out; else echo "$id: does not apply to HEAD" | tee -a $out; fi
 done
 rm -rf $S
